@@ -515,3 +515,11 @@ MUTANTS += [
     T("c04-twin-periodic-or-instead-of-xor", ["C04", "C05"], RC, "                        z3.Xor(\n                            # after the interval, and before its next repetition", "                        z3.Or(\n                            # after the interval, and before its next repetition"),
     T("c04-twin-periodic-folded-local", ["C04", "C05"], RC, "                    duration = end_task_i - start_task_i\n                    conds = [\n                        z3.Xor(\n                            # after the interval, and before its next repetition\n                            z3.And(\n                                (start_task_i - self.offset) % self.period\n                                >= interval_upper_bound,\n                                (start_task_i - self.offset) % self.period + duration\n                                <= interval_lower_bound + self.period,\n                            ),\n                            (start_task_i - self.offset) % self.period + duration\n                            <= interval_lower_bound,", "                    duration = end_task_i - start_task_i\n                    folded = (start_task_i - self.offset) % self.period\n                    conds = [\n                        z3.Xor(\n                            z3.And(\n                                interval_upper_bound <= folded,\n                                interval_lower_bound + self.period >= duration + folded,\n                            ),\n                            folded + duration <= interval_lower_bound,"),
 ]
+
+MUTANTS += [
+    # ---- cardinality predicates decided semantically (count / n / size, linear integer arithmetic) ----
+    B("c06-force-n-and-shortcut-all-kinds", ["C06"], TC, "        asst = problem_function[self.kind](\n            [(scheduled, True) for scheduled in sched_vars], self.nb_tasks_to_schedule\n        )", "        if self.nb_tasks_to_schedule == len(sched_vars):\n            asst = z3.And(sched_vars)\n        else:\n            asst = problem_function[self.kind](\n                [(scheduled, True) for scheduled in sched_vars], self.nb_tasks_to_schedule\n            )"),
+    T("c06-twin-force-n-and-shortcut-not-max", ["C06"], TC, "        asst = problem_function[self.kind](\n            [(scheduled, True) for scheduled in sched_vars], self.nb_tasks_to_schedule\n        )", "        if self.nb_tasks_to_schedule == len(sched_vars) and self.kind != \"max\":\n            asst = z3.And(sched_vars)\n        else:\n            asst = problem_function[self.kind](\n                [(scheduled, True) for scheduled in sched_vars], self.nb_tasks_to_schedule\n            )"),
+    B("c06-force-n-or-shortcut-wrong-kind", ["C06"], TC, "        asst = problem_function[self.kind](\n            [(scheduled, True) for scheduled in sched_vars], self.nb_tasks_to_schedule\n        )", "        if self.nb_tasks_to_schedule == 1 and self.kind != \"min\":\n            asst = z3.Or(sched_vars)\n        else:\n            asst = problem_function[self.kind](\n                [(scheduled, True) for scheduled in sched_vars], self.nb_tasks_to_schedule\n            )"),
+    T("c06-twin-force-n-or-shortcut-min-one", ["C06"], TC, "        asst = problem_function[self.kind](\n            [(scheduled, True) for scheduled in sched_vars], self.nb_tasks_to_schedule\n        )", "        if self.nb_tasks_to_schedule == 1 and self.kind == \"min\":\n            asst = z3.Or(sched_vars)\n        else:\n            asst = problem_function[self.kind](\n                [(scheduled, True) for scheduled in sched_vars], self.nb_tasks_to_schedule\n            )"),
+]
